@@ -1528,7 +1528,7 @@ func (s *sched) enabled(rnd *hx.Rand, drain bool) []choice {
 				cs = append(cs, choice{w, func() { s.pcancel(px) }, "cancel"})
 			}
 		case len(px.cleanup) > 0:
-			w := 3
+			w := 2
 			if drain {
 				w = 10
 			}
@@ -1731,7 +1731,7 @@ func randomScenario(r *hx.Run, rnd *hx.Rand, layers []*layer, maxTasks, maxSteps
 					var px *proxy
 					for _, p := range s.proxies {
 						// the same proxy again: after its Close, or on top of handles it still has
-						if p.call == nil && (rnd.Chance(1, 4) || (len(p.cleanup) > 0 && rnd.Chance(1, 2))) {
+						if p.call == nil && (rnd.Chance(1, 4) || (len(p.cleanup) > 0 && rnd.Chance(2, 3))) {
 							px = p
 							break
 						}
